@@ -11,7 +11,7 @@ Variable extras : bool.
 Variable uprop : name -> option (N -> bool).
 Variable w : list byte.
 Variable Inv : state_inv.
-Hypothesis HP : preserved G extras uprop w Inv.
+Hypothesis HP : preserved G extras uprop w (fun _ => True) Inv.
 Notation equiv := (equiv G extras uprop w Inv).
 Notation bs := (bs G extras uprop w).
 
@@ -45,7 +45,7 @@ Qed.
 Theorem unroll_expr_equiv a e e' : unroll_expr extras e = Some e' -> equiv a e e'.
 Proof.
   unfold unroll_expr. intros H.
-  apply (map_bottom_up_equiv G extras uprop w Inv HP a (fun _ => True) (unroll_fn extras)) in H.
+  apply (map_bottom_up_equiv G extras uprop w (fun _ => True) Inv HP a (unroll_fn extras)) in H.
   - tauto.
   - intros x y _ E. split; [now apply unroll_fn_equiv|apply Forall_True].
   - apply Forall_True.
@@ -60,8 +60,8 @@ Proof.
   assert (Law : forall Gx r r' a0, unroll_rule extras r = Some r' -> equiv Gx extras uprop w (fun _ _ => True) a0 (rexpr r) (rexpr r')).
   { intros Gx r r' a0 E. apply with_expr_inv in E. eapply unroll_expr_equiv; [apply preserved_True|exact E]. }
   split; intros B.
-  - eapply (pass_backward G G' extras uprop w (fun _ _ => True) (unroll_rule extras)); eauto using preserved_True.
-  - eapply (pass_forward G G' extras uprop w (fun _ _ => True) (unroll_rule extras)); eauto using preserved_True.
+  - eapply (pass_backward G G' extras uprop w (fun _ => True) (fun _ _ => True) (unroll_rule extras)); eauto using preserved_True, Forall_True', jvalid_True.
+  - eapply (pass_forward G G' extras uprop w (fun _ => True) (fun _ _ => True) (unroll_rule extras)); eauto using preserved_True, Forall_True', jvalid_True.
 Qed.
 
 (* ---------- no panic: counts as the grammar reader produces them (non-zero where required, below u32::MAX) ---------- *)
